@@ -36,7 +36,7 @@ MANIFEST = dict(
   note=TRUST + "not modelled (inputs of the models): the random variates and the eigendecomposition of MultiVariateNormalDistribution::update; VD-CMA's updateStrategyParameters has no Lean model (constants regenerated and compared, update covered by the oracle only; "
        "generic_rank_invariance applies to any update function but VD-CMA's is not tied); cov_update_psd is stated on Mathlib matrices, the list-based covUpdate of the executable model is the same formula but the two are not formally connected; "
        "cholUpdate_diag_pos proves validity of the returned factor, not that L'L'^T equals alpha*LL^T+beta*vv^T; simplex rank invariance and CEM/simplex convergence are oracle-only; the noise-handling branch of CMA::step (function.isNoisy()) is outside the property (deterministic objective); "
-       "ElitistSelection uses std::sort (unstable beyond 16 elements): generations with tied fitness among more than 16 offspring are counted, not compared; convergence on the sphere is numerical (value <= 1e-10, CEM 1e-6, within the budget). "
+       "ElitistSelection uses std::sort (unstable beyond 16 elements): generations with tied fitness among more than 16 offspring are counted, not compared; convergence on the sphere is numerical (value <= 1e-10 within the budget; CEM: 1e-6 and dimension <= 2 only, because the noise-free cross-entropy method with 10 of 100 parents converges prematurely in higher dimension: n=5, seed 862289 stalls at 3.6e-3). "
        "Known findings on the unchanged tree (known_findings.json, findings_proposed/C11.md): F14 VD-CMA learning rates negative for n<5 and zero for n=5 (patch C11-F14-vdcma-correction-floor.patch, validated) and its consequence F12 (VD-CMA turns NaN after stagnating), "
        "F13 the CMA covariance matrix drifts away from symmetry (oracle tolerance 1e-9*sqrt(CiiCjj)+1e-16), F15 CMA with a feasibility box whose optimum lies on the boundary and a large population loses positive definiteness of C and the eigensolver throws (thorough tier; corpus f15). CMA traces do not start at |x0| ~ 1e6 (cancellation in x - mean exceeds the 1e-9 tolerance of the C comparison; such starts are kept in the run cases). Observations (not violations of C11 as stated): CMA/CMSA rank offspring by unpenalizedFitness, so the PenalizingEvaluator penalty never influences selection; LMCMA.h does not compile and LMCMA::step always throws; CMAChromosome::roundUpdate deviates from the paper by a factor c_cov.",
   technique="Lean 4 proofs (induction over generations and over the columns of the Cholesky factor, stable-sort congruence, Mathlib PosSemidef) about regenerated formulas and hand-written models + differential correspondence and property oracle on the C++ (ASan/UBSan)",
@@ -171,6 +171,9 @@ def gen_directed_case(r):
 def gen_conv_case(r, steps):
     kind = r.choice(["cma", "cma", "cmsa", "ecma", "vdcma", "cem", "simplex"])
     n = r.choice([1, 2, 3, 4, 5]) if kind != "vdcma" else r.choice([2, 3, 4, 5, 6, 8])
+    if kind == "cem":
+        n = r.choice([1, 2])    # 10 parents of 100: the maximum-likelihood variance collapses before the mean arrives in higher dimension
+                                # (n=5, seed 862289: stalls at 3.6e-3 after 600 steps) -- premature convergence inherent to the method without noise
     budget = {"cma": steps, "cmsa": steps, "vdcma": 2 * steps, "ecma": 12 * steps, "cem": steps, "simplex": 3 * steps}[kind]
     # CEM converges linearly to the precision of its variance estimate; the default variance 100 needs more steps
     target = {"cem": 1e-6}.get(kind, 1e-10)
